@@ -121,6 +121,9 @@ type Cluster struct {
 	// ResponseCompress makes the node compress response bodies on connections that
 	// negotiated compression.
 	ResponseCompress bool
+	// FrameHook, when set, sees every outgoing frame and may replace it (byzantine node);
+	// closeAfter closes the connection right after the (possibly truncated) bytes.
+	FrameHook func(sc *SConn, stream int, label string, frame []byte) (out []byte, closeAfter bool)
 	// NoWireOracle turns the generic C03/C18 request checks off (byzantine scenarios).
 	NoWireOracle bool
 	// PeersHook, when set, replaces PeersOf (invalid / duplicated / changed rows).
@@ -376,6 +379,16 @@ func (cl *Cluster) sendRaw(sc *SConn, rec *ReqRec, resp *cqlspec.Response, fate 
 
 // SendFrame queues raw bytes as the reply on a stream.
 func (cl *Cluster) SendFrame(sc *SConn, stream int, frame []byte, fate Fate, label string) *Reply {
+	closeAfter := false
+	if cl.FrameHook != nil {
+		frame, closeAfter = cl.FrameHook(sc, stream, label, frame)
+	}
+	if closeAfter {
+		defer func() {
+			cl.flushAll(sc)
+			cl.CloseConn(sc, false)
+		}()
+	}
 	cl.seq++
 	r := &Reply{SC: sc, Stream: stream, Seq: cl.seq, Frame: frame, Label: label}
 	switch fate {
@@ -422,6 +435,23 @@ func (cl *Cluster) DeliverPart(r *Reply, n int) {
 		if r.SC.Outstanding[r.Stream] == r {
 			delete(r.SC.Outstanding, r.Stream)
 		}
+	}
+}
+
+// flushAll delivers every held reply of a connection in order.
+func (cl *Cluster) flushAll(sc *SConn) {
+	for {
+		var next *Reply
+		for _, r := range cl.held {
+			if r.SC == sc {
+				next = r
+				break
+			}
+		}
+		if next == nil {
+			return
+		}
+		cl.Deliver(next)
 	}
 }
 
@@ -481,7 +511,15 @@ func (cl *Cluster) PushEvent(ev *cqlspec.Response) int {
 			panic(err)
 		}
 		cl.K.Rec("event %s %s %s %s", sc.C.Name, ev.EventType, ev.EventChange, net.IP(ev.EventIP))
+		closeAfter := false
+		if cl.FrameHook != nil {
+			frame, closeAfter = cl.FrameHook(sc, -1, "EVENT", frame)
+		}
+		cl.flushPartial(sc)
 		sc.C.ServerSend(frame)
+		if closeAfter {
+			cl.CloseConn(sc, false)
+		}
 		n++
 	}
 	return n
